@@ -269,6 +269,8 @@ fn generate_global_branch(
                         let mut m = #cache_ident.write();
                         cachelito_core::verif::probe_sync(&mut m, &mut o, cmd);
                     });
+                    cachelito_core::verif::register_lock(stringify!(#cache_ident), "M", cachelito_core::verif_sync::rwlock_id(&*#cache_ident));
+                    cachelito_core::verif::register_lock(stringify!(#cache_ident), "O", cachelito_core::verif_sync::mutex_id(&*#order_ident));
                 });
             }
         }
@@ -710,8 +712,19 @@ pub fn cache(attr: TokenStream, item: TokenStream) -> TokenStream {
 
     // Generate final expanded code
     let scope_expr = &attrs.scope;
+    // verification hook (feature "verif" only): the generated `parking_lot::` paths resolve
+    // to the observable lock types
+    let verif_lock_shim = if cfg!(feature = "verif") {
+        quote! {
+            #[allow(unused_imports)]
+            use ::cachelito_core::verif_sync as parking_lot;
+        }
+    } else {
+        quote! {}
+    };
     let expanded = quote! {
         #vis #sig {
+            #verif_lock_shim
             use ::std::collections::VecDeque;
             use ::std::cell::RefCell;
             use ::cachelito_core::{CacheEntry, CacheScope, ThreadLocalCache, GlobalCache, CacheableKey};
